@@ -838,7 +838,11 @@ class DATETIME(NUMERIC):
         return self.prepare_datetime(x)
 
     def from_column_value(self, x):
-        return long_to_datetime(x)
+        try:
+            return long_to_datetime(x)
+        except OverflowError:
+            # The column default (for documents without a date) is not a date
+            return None
 
     def to_bytes(self, x, shift=0):
         x = self.prepare_datetime(x)
